@@ -173,6 +173,9 @@ def parseE : Nat → List String → Option (Expr × List String)
     | "st" :: rest => do
       let (x, rest) ← parseE fuel rest
       some (.starred x, rest)
+    | "ul" :: rest => do
+      let (x, rest) ← parseE fuel rest
+      some (.unlinked x, rest)
     | _ => none
 
 /-- concrete syntax trees: `a <u:>` · `g d` · `U <Op> d` · `B <0|1> <Op> l r` · `L <Op> <k> d×k` ·
